@@ -113,3 +113,14 @@ package api
 //@   at call invoke.Header#6 ghost originChecked = true
 //@   at call authenticateRequest assert origin == "" || originChecked
 //@   at call invoke.ServeHTTP assert apiRequest.AuthToken != nil && handler != nil && (origin == "" || originChecked)
+
+// C03: the external database API always works through an interface that is neither local nor internal
+//@ func CreateDatabaseAPI
+//@   nopanic off
+//@   modifies *
+//@   at call database.NewInterface assert arg0 == nil
+
+//@ func startDatabaseWebsocketAPI
+//@   nopanic off
+//@   modifies *
+//@   at call database.NewInterface assert arg0 == nil
